@@ -636,6 +636,23 @@ func runManager(t *testing.T, run *vt.Run, c vt.CaseID, rng *rand.Rand, concurre
 			if mgr.IsStopped() != allTerminal {
 				viol("isstopped", fmt.Sprintf("IsStopped()=%v but all-services-terminal=%v", mgr.IsStopped(), allTerminal), nil)
 			}
+			if !concurrent {
+				// the manager's per-state view at a quiescent point: every service exactly once, under its own state
+				by := mgr.ServicesByState()
+				seen := 0
+				for st, list := range by {
+					for _, x := range list {
+						seen++
+						if x.State() != st {
+							viol("services-by-state", fmt.Sprintf("ServicesByState lists a service under %v whose state is %v", st, x.State()), nil)
+						}
+					}
+				}
+				if seen != len(svcs) {
+					viol("services-by-state", fmt.Sprintf("ServicesByState lists %d services, the manager has %d", seen, len(svcs)), nil)
+				}
+				run.Count("services_by_state_checked", 1)
+			}
 			ml.mu.Lock()
 			if fmt.Sprint(ml.failed) != fmt.Sprint(failedWant) {
 				viol("failure-callbacks", fmt.Sprintf("Failure callbacks %v, failed services %v", ml.failed, failedWant), nil)
